@@ -476,6 +476,22 @@ class Splicer:
             elif name == "body_start":
                 ghost_check(slines, "body_start")
                 ins(toks[body_open].end, "\n" + block + "\n", "ghost", **meta)
+            elif name == "tail":
+                # R13: name the value of the tail expression:  `E`  ->  `let NAME = E; <ghost> NAME`
+                ghost_check(slines, "tail")
+                nm = args.strip().split()[0]
+                starts = statement_starts(toks, body_open, body_close)
+                cands = [i for (i, d) in starts if d == 1]
+                if not cands:
+                    raise SpliceError("lost anchor: %s: no tail expression" % key)
+                ti = cands[-1]
+                if toks[body_close - 1].text == ";":
+                    raise SpliceError("lost anchor: %s: body has no tail expression" % key)
+                edits.append((toks[ti].start, toks[ti].start, "let %s = " % nm, "R13a", {}))
+                edits.append((toks[body_close - 1].end, toks[body_close - 1].end, ";\n", "R13b", {}))
+                edits.append((toks[body_close - 1].end, toks[body_close - 1].end, block + "\n", "ghost", dict(meta)))
+                edits.append((toks[body_close - 1].end, toks[body_close - 1].end, nm + "\n", "R13c", {}))
+                info.rewrites.append("R13@%s:%d" % (os.path.basename(sf.path), sf.line_of(base + toks[ti].start)))
             elif name == "body_end":
                 ghost_check(slines, "body_end")
                 ins(toks[body_close].start, "\n" + block + "\n", "ghost", **meta)
@@ -536,10 +552,42 @@ class Splicer:
                 b1, b2, bs, be = closures[idx]
                 orig_params = [t.text for t in toks[b1 + 1:b2] if t.kind == "ident"]
                 new_params = ckv.get("params", "")
-                new_names = [t.text for t in tokenize(re.sub(r":[^,]*", "", new_params)) if t.kind == "ident"]
+                # parameter names = identifiers before the type annotation of each top-level parameter
+                new_names = []
+                depth_p, seg, segs = 0, "", []
+                for ch in new_params:
+                    if ch in "([<":
+                        depth_p += 1
+                    elif ch in ")]>":
+                        depth_p -= 1
+                    if ch == "," and depth_p == 0:
+                        segs.append(seg)
+                        seg = ""
+                    else:
+                        seg += ch
+                segs.append(seg)
+                for sg in segs:
+                    dp, cut = 0, len(sg)
+                    for ci, ch in enumerate(sg):
+                        if ch in "([<":
+                            dp += 1
+                        elif ch in ")]>":
+                            dp -= 1
+                        elif ch == ":" and dp == 0:
+                            cut = ci
+                            break
+                    new_names += [t.text for t in tokenize(sg[:cut]) if t.kind == "ident" and t.text not in ("mut", "ref")]
                 # names must match the closure's own parameter names
                 orig_names = [t.text for t in toks[b1 + 1:b2] if t.kind == "ident" and t.text not in ("mut", "ref")]
-                if new_names != orig_names:
+                bind = ckv.get("bind")
+                if bind:
+                    # R14: `|PATTERN| BODY` -> `|bind: T| { let PATTERN = bind; BODY }` (Verus accepts only variables as closure parameters)
+                    if new_names != [bind]:
+                        raise SpliceError("%s closure %d: bind=%s but params name %s" % (key, idx, bind, new_names))
+                    if "expect_names" in ckv and ckv["expect_names"].split(",") != orig_names:
+                        raise SpliceError("lost anchor: %s closure %d binds %s, contract expects %s" % (key, idx, orig_names, ckv["expect_names"]))
+                    info.rewrites.append("R14@%s:%d" % (os.path.basename(sf.path), sf.line_of(base + toks[b1].start)))
+                elif new_names != orig_names:
                     raise SpliceError("lost anchor: %s closure %d params %s != contract %s" %
                                       (key, idx, orig_names, new_names))
                 edits.append((toks[b1].end, toks[b2].start, new_params, "A3", {}))
@@ -547,8 +595,14 @@ class Splicer:
                 if "ret" in ckv:
                     hdr += " -> " + ckv["ret"]
                 braces = toks[bs].text != "{"
-                ins(toks[b2].end, hdr + ("\n" + block + "\n" if block.strip() else " ") + ("{ " if braces else ""),
-                    "A3", **meta)
+                pat_text = text[toks[b1].end:toks[b2].start]
+                letbind = (" let %s = %s; " % (pat_text.strip(), bind)) if bind else ""
+                if bind and not braces:
+                    ins(toks[b2].end, hdr + ("\n" + block + "\n" if block.strip() else " "), "A3", **meta)
+                    ins(toks[bs].end, letbind, "R14")
+                else:
+                    ins(toks[b2].end, hdr + ("\n" + block + "\n" if block.strip() else " ") + ("{ " if braces else "") + letbind,
+                        "A3", **meta)
                 if braces:
                     ins(toks[be - 1].end, " }", "A3")
             elif name in ("before", "after"):
